@@ -1,6 +1,6 @@
 import logging
 import struct
-from typing import Literal, Protocol
+from typing import BinaryIO, Literal, Protocol
 
 from a816.cpu.cpu_65c816 import (
     AddressingMode,
@@ -321,16 +321,27 @@ class IncludeIpsNode(NodeProtocol):
                 raise RuntimeError(f'{self.ips_file_path} is missing "PATCH" header')
 
             while ips_file.peek(3)[:3] != b"EOF":
-                block_addr_bytes = struct.unpack(">BH", ips_file.read(3))
+                block_addr_bytes = struct.unpack(">BH", self._read_exactly(ips_file, 3))
                 block_addr = (block_addr_bytes[0] << 16) | block_addr_bytes[1]
-                block_size_word = struct.unpack(">H", ips_file.read(2))
+                block_size_word = struct.unpack(">H", self._read_exactly(ips_file, 2))
                 block_size = block_size_word[0]
-                block = ips_file.read(block_size)
+                if block_size == 0:
+                    # run-length record: 2 bytes run length, 1 byte value.
+                    run_length, run_value = struct.unpack(">HB", self._read_exactly(ips_file, 3))
+                    block = bytes([run_value]) * run_length
+                else:
+                    block = self._read_exactly(ips_file, block_size)
 
                 if self.delta is not None:
                     block_addr += self.delta
 
                 self.blocks.append((block_addr, block))
+
+    def _read_exactly(self, ips_file: BinaryIO, size: int) -> bytes:
+        data = ips_file.read(size)
+        if len(data) != size:
+            raise RuntimeError(f"{self.ips_file_path} is truncated.")
+        return data
 
     def pc_after(self, current_pc: Address) -> Address:
         return current_pc
